@@ -132,12 +132,65 @@ theorem splitFold_le (reg : StrRegistry) : ∀ (ms : List Ty) (s : Split), SLe s
   | [], _ => ⟨fun _ h => h, fun _ h => h, fun _ h => h, fun _ h => h, fun _ h => h⟩
   | m :: ms, s => (splitStepX_le reg s m).trans (splitFold_le reg ms _)
 
-theorem splitMembers_has {R : Ty → Prop} (hopt : ∀ x, R (.opt x) → R x) (reg : StrRegistry) {ms : List Ty}
+/-- the fold holds a contribution as soon as one of the folded members satisfies `R` -/
+theorem splitFold_has {R : Ty → Prop} (hopt : ∀ x, R (.opt x) → R x) (reg : StrRegistry) :
+    ∀ (L : List Ty) (s : Split), (∃ x ∈ L, R x) → SHas R (L.foldl (splitStepX reg) s)
+  | [], _, h => by obtain ⟨_, hx, _⟩ := h; cases hx
+  | m :: rest, s, h => by
+    rw [List.foldl_cons]
+    obtain ⟨x, hx, hr⟩ := h
+    rcases List.mem_cons.1 hx with rfl | hx
+    · exact (splitStep_has hopt reg s x hr).mono (splitFold_le reg rest _)
+    · exact splitFold_has hopt reg rest _ ⟨x, hx, hr⟩
+
+/-- a member invariant that goes under `Optional` (also giving the `Null` of the split) and to union members
+    holds of everything the worklist folds over (D21: the members of a union hidden under `Optional` too) -/
+theorem forall_flatT_pr {Q : Ty → Prop} (hopt : ∀ x, Q (.opt x) → Q .null ∧ Q x)
+    (hu : ∀ ms, Q (.union ms) → ∀ m ∈ ms, Q m) : ∀ (t : Ty), Q t → ∀ x ∈ SplitW.flatT t, Q x := by
+  intro t
+  induction t using SplitW.flat_induct with
+  | hu ms ih =>
+    intro h x hx; rw [SplitW.flatT_union, SplitW.mem_flatL] at hx; obtain ⟨m, hm, hx⟩ := hx
+    exact ih m hm (hu ms h m hm) x hx
+  | hou ms ih =>
+    intro h x hx
+    rw [SplitW.flatT_opt_union, List.mem_cons, SplitW.mem_flatL] at hx
+    rcases hx with rfl | ⟨m, hm, hx⟩
+    · exact (hopt _ h).1
+    · exact ih m hm (hu ms (hopt _ h).2 m hm) x hx
+  | hp t h => intro ht x hx; rw [SplitW.flatT_plain h] at hx; simp at hx; subst hx; exact ht
+
+theorem forall_flatL_pr {Q : Ty → Prop} (hopt : ∀ x, Q (.opt x) → Q .null ∧ Q x)
+    (hu : ∀ ms, Q (.union ms) → ∀ m ∈ ms, Q m) {ts : List Ty} (h : ∀ t ∈ ts, Q t) :
+    ∀ x ∈ SplitW.flatL ts, Q x := by
+  intro x hx; obtain ⟨t, ht, hx⟩ := SplitW.mem_flatL.1 hx
+  exact forall_flatT_pr hopt hu t (h t ht) x hx
+
+/-- a member satisfying `R` (which goes under `Optional` and to SOME member of a union) leaves an element
+    satisfying `R` in the list the worklist folds over -/
+theorem exists_flatT_has {R : Ty → Prop} (hopt : ∀ x, R (.opt x) → R x)
+    (hu : ∀ ms, R (.union ms) → ∃ m ∈ ms, R m) : ∀ (t : Ty), R t → ∃ x ∈ SplitW.flatT t, R x := by
+  intro t
+  induction t using SplitW.flat_induct with
+  | hu ms ih =>
+    intro h
+    obtain ⟨m, hm, hr⟩ := hu ms h
+    obtain ⟨x, hx, hxr⟩ := ih m hm hr
+    exact ⟨x, by rw [SplitW.flatT_union, SplitW.mem_flatL]; exact ⟨m, hm, hx⟩, hxr⟩
+  | hou ms ih =>
+    intro h
+    obtain ⟨m, hm, hr⟩ := hu ms (hopt _ h)
+    obtain ⟨x, hx, hxr⟩ := ih m hm hr
+    exact ⟨x, by rw [SplitW.flatT_opt_union, List.mem_cons, SplitW.mem_flatL]; exact .inr ⟨m, hm, hx⟩, hxr⟩
+  | hp t h => intro ht; exact ⟨t, by simp [SplitW.flatT_plain h], ht⟩
+
+theorem splitMembers_has {R : Ty → Prop} (hopt : ∀ x, R (.opt x) → R x)
+    (hu : ∀ ms, R (.union ms) → ∃ m ∈ ms, R m) (reg : StrRegistry) {ms : List Ty}
     (hne : ms ≠ []) (hms : ∀ m ∈ ms, R m) : SHas R (splitMembers reg ms) := by
   rw [splitMembers_eqX]
   obtain ⟨m, rest, rfl⟩ := List.exists_cons_of_ne_nil hne
-  rw [List.foldl_cons]
-  exact (splitStep_has hopt reg _ m (hms m List.mem_cons_self)).mono (splitFold_le reg rest _)
+  obtain ⟨x, hx, hr⟩ := exists_flatT_has hopt hu m (hms m List.mem_cons_self)
+  exact splitFold_has hopt reg _ _ ⟨x, SplitW.mem_flatL.2 ⟨m, List.mem_cons_self, hx⟩, hr⟩
 
 /-! ### the end of `_optimize_union` -/
 
@@ -305,11 +358,21 @@ theorem optimizeUnion_lwit_step (fuel : Nat) (ih : OptL cfg e Obj acc fuel) : Op
     · simp only [LWit] at hx
       exact ⟨.inl ⟨rfl, hx.1⟩, .inr hx.2⟩
   have hprov : SPr (JW Obj acc a u vs) (splitMembers cfg.reg ms) := by
+    have hQu : ∀ ms', JW Obj acc a u vs (.union ms') → ∀ m ∈ ms', JW Obj acc a u vs m := by
+      intro ms' hx m hm
+      rcases hx with ⟨h0, _⟩ | hx
+      · cases h0
+      · exact .inr ((lwit_union.1 hx).2 m hm)
     rw [splitMembers_eqX]
-    exact splitFold_pr hQopt cfg.reg ms {} (fun m hm => .inr (hms m hm)) ⟨by simp, by simp, by simp, by simp, by simp⟩
+    exact splitFold_pr hQopt cfg.reg (SplitW.flatL ms) {}
+      (forall_flatL_pr hQopt hQu (fun m hm => .inr (hms m hm))) ⟨by simp, by simp, by simp, by simp, by simp⟩
   have hhas : SHas (fun t => LWit Obj acc a u t vs) (splitMembers cfg.reg ms) :=
     splitMembers_has (R := fun t => LWit Obj acc a u t vs)
-      (fun x hx => by simp only [LWit] at hx; exact hx.2) cfg.reg hne hms
+      (fun x hx => by simp only [LWit] at hx; exact hx.2)
+      (fun ms' hx => by
+        obtain ⟨hne', hall⟩ := lwit_union.1 hx
+        obtain ⟨m, hm⟩ := List.exists_mem_of_ne_nil _ hne'
+        exact ⟨m, hm, hall m hm⟩) cfg.reg hne hms
   generalize splitMembers cfg.reg ms = s at h hprov hhas
   obtain ⟨p1, p2, p3, p4, p5⟩ := hprov
   have hnil : s.toMerge = [] := by
